@@ -392,3 +392,85 @@ func (p *Program) isLexerFunc(fd *ast.FuncDecl) bool {
 	}
 	return p.lexer[fd]
 }
+
+// reachableFromAPI: module functions reachable from the entry points the properties speak about (Scan,
+// SplitStatements, Parse, Walk, Compile and CompileOptions.Compile, plus main for the command). Calls are followed
+// statically; a function used as a value is reachable; a call through an interface reaches every module method of
+// that name. A new exported helper that nothing of this calls (MustCompile) is outside the properties' scope.
+func (p *Program) reachableFromAPI() map[*types.Func]bool {
+	if p.reach != nil {
+		return p.reach
+	}
+	p.reach = map[*types.Func]bool{}
+	methodsByName := map[string][]*types.Func{}
+	decl := map[*types.Func]*ast.FuncDecl{}
+	for _, pkg := range p.All {
+		for _, fd := range AllFuncs(pkg) {
+			fn := FuncObj(pkg, fd)
+			if fn == nil {
+				continue
+			}
+			decl[fn] = fd
+			if fn.Type().(*types.Signature).Recv() != nil {
+				methodsByName[fn.Name()] = append(methodsByName[fn.Name()], fn)
+			}
+		}
+	}
+	var work []*types.Func
+	add := func(fn *types.Func) {
+		if fn == nil {
+			return
+		}
+		if o := fn.Origin(); o != nil {
+			fn = o
+		}
+		if decl[fn] != nil && !p.reach[fn] {
+			p.reach[fn] = true
+			work = append(work, fn)
+		}
+	}
+	for _, e := range []struct {
+		pkg  *packages.Package
+		name string
+	}{{p.Parser, "Scan"}, {p.Parser, "SplitStatements"}, {p.Parser, "Parse"}, {p.Parser, "Walk"}, {p.PQL, "Compile"}, {p.PQL, "CompileOptions.Compile"}, {p.Main, "main"}} {
+		if fd := p.FuncDecl(e.pkg, e.name); fd != nil {
+			add(FuncObj(e.pkg, fd))
+		}
+	}
+	// methods the callers of the API invoke on what it returns (Span, Error, String, accessors of literals, ...)
+	for _, pkg := range p.Lib() {
+		for _, fd := range AllFuncs(pkg) {
+			if fn := FuncObj(pkg, fd); fn != nil && fn.Exported() && fn.Type().(*types.Signature).Recv() != nil {
+				add(fn)
+			}
+		}
+	}
+	for len(work) > 0 {
+		fn := work[len(work)-1]
+		work = work[:len(work)-1]
+		ast.Inspect(decl[fn].Body, func(n ast.Node) bool {
+			switch x := n.(type) {
+			case *ast.Ident:
+				if f, ok := p.Info.Uses[x].(*types.Func); ok {
+					add(f)
+				}
+			case *ast.SelectorExpr:
+				if s, ok := p.Info.Selections[x]; ok {
+					if f, ok := s.Obj().(*types.Func); ok {
+						if _, isIface := s.Recv().Underlying().(*types.Interface); isIface {
+							for _, m := range methodsByName[f.Name()] {
+								add(m)
+							}
+						} else {
+							add(f)
+						}
+					}
+				} else if f, ok := p.Info.Uses[x.Sel].(*types.Func); ok {
+					add(f)
+				}
+			}
+			return true
+		})
+	}
+	return p.reach
+}
